@@ -86,7 +86,11 @@ def oracle (c : Ctx) (name : String) (op : List Nat) : Option Fails :=
               chk (leafOf post.mem root page == .entry want) "cow-entry-private-rw" "cow" ++
               chk (post.mem.frame copy == pre.mem.frame old) "cow-copy-equal-contents" "cow" ++
               chk (post.mem.frame old == pre.mem.frame old) "cow-shared-frame-untouched" "cow" ++
-              chk ((b.filter (·.1 ≠ p36 tempPage)) == (lset a page want).filter (·.1 ≠ p36 tempPage))
+              chk (match leafOf post.mem root (p36 tempPage) with
+                   | .entry e => !entPresent e
+                   | .absent _ => true
+                   | .huge _ => false) "cow-temp-unmapped" "cow" ++
+              chk (b == (lset a page want).filter (·.1 ≠ p36 tempPage))
                 "cow-others-untouched" "cow" ++
               chk (post.flushes.contains (addr / 4096 * 4096)) "cow-flush" "cow")
     | _, none => none
